@@ -214,9 +214,12 @@ INTRO6 = """### 9.4f Sixth round: behaviour-preserving refactorings (the false-a
 
 The checks must never raise an alarm on code where the properties hold, and until here that direction had been probed only by my own
 behaviour-preserving variants (§7, `selftest/silent_all.py`). Ten fresh sub-agents (same isolation) each received a file group and had to
-write four realistic refactorings that leave the behaviour *exactly* unchanged - extract / inline a helper, rename locals, loops <->
-comprehensions, equivalent torch API, keyword for positional arguments, guard clauses, de Morgan, hoisted sub-expressions, a method pulled up
-to a base class, a helper moved to another module - each with a demo that prints a digest over the bytes of everything it computes (values,
+write four realistic refactorings that leave the behaviour *exactly* unchanged - first batch (R01-R10): extract / inline a helper, rename
+locals, loops <-> comprehensions, equivalent torch API, keyword for positional arguments, guard clauses, de Morgan, hoisted sub-expressions, a
+method pulled up to a base class, a helper moved to another module; second batch (R11-R20, "structurally bold"): long functions split into
+private functions passing named tuples or dataclasses, near-duplicates merged into a parameterised function, methods moved into mixins,
+if/elif dispatch replaced by tables of callables, `functools.partial` / `reduce` / `operator.methodcaller`, generators, `for`/`break` for
+`while`, template methods - each with a demo that prints a digest over the bytes of everything it computes (values,
 dtypes, exception messages, RNG state, gradients) which has to be identical on the clean and on the refactored tree, and with the pinned suite
 at 933/933. NREF candidates, re-confirmed by `tools/refactor.py verify` (`refactorings/Rnn-k/`). `tools/refactor.py check` runs every check
 on every refactored tree; any exit code other than 0 is a false alarm (1) or a brittle analysis (2). First run: FIRSTREF. After the work
@@ -241,6 +244,18 @@ What the refactoring round changed (none of these touched a verdict on a seeded 
   inside `to()`; it now accepts any branch decided on `is_floating_point` whose other side raises before any state is changed.
 * **R10-3** (a dict comprehension) and **R10-4** (`bisect(fn, target=..., lower=..., upper=...)` by keyword): unsupported expression; a rule
   that read call arguments by position. Call events now carry the arguments *by parameter name* (`bound`), and the rule uses that.
+* **The second batch is a test of how much Python the analyser reads**, and it read too little: class-based `typing.NamedTuple` (fields,
+  defaults, methods, unpacking, indexing, `_asdict`, `_replace`), `@dataclass`, `functools.partial` / `reduce`, `operator.add` / `methodcaller` /
+  `itemgetter`, `itertools.count`, `break` / `continue` / `for ... else`, `bool()`, `object()` sentinels at module level, `staticmethod(f)` as a
+  class attribute, a bound tensor method taken as a value, `yield from`, dict / set comprehensions were all unsupported (analysis errors), and
+  a named tuple re-bound in a loop body was not carried from one iteration to the next (R19-2: `bisect` with a `_Bracket(lower, upper)` - after
+  the fix the loop-invariant rule C19.R1 discharges on the restructured loop). The false alarms were rules tied to a call shape rather than to
+  a value: C08.R5 wanted the gamma relation called *directly* (now: anywhere in the dynamic extent, arguments by name), C19.R4 wanted
+  `find_implied_volatility` called from a method named `implied_volatility` (now: from it or a helper it delegates to), C01.R4 was anchored at
+  the private `Hedger._get_hedge` (now: the default hedge is read off the prices `compute_pl` hands to `pl()`), C16.R4 at `FeatureList.of`
+  (now: whatever `of` the class resolves to), C17.R2 parsed branch conditions of `to()` (now: four scenarios on the faithful interpreter - a
+  dtype given, a device given, nothing given, a rejected dtype - judged by the declaration and the buffer they leave), C16's in-place coverage
+  scan recognised registry stores by the `self._` prefix (now: the stores the call histories reach).
 * **Mechanical rewrites of the whole package** (`selftest/refactor_gen.py`, each confirmed by the pinned suite before it is used): every
   positional argument of a call to a pfhedge function passed by keyword (270 sites), every `return <expr>` through a local (271), conditional
   expressions as if/else (15), every local variable renamed (388), method form to function form (`x.exp()` -> `torch.exp(x)`, 94), list
@@ -302,8 +317,18 @@ def refactorings():
     if not rows6:
         return
     first = {"R03-2": "analysis error in C02, C03, C14, C16, C17", "R04-4": "analysis error in C12, C13", "R05-4": "FALSE ALARM C17.R2", "R06-3": "analysis error in C10, C11, C16",
-             "R10-3": "FALSE ALARM C02.R4 + analysis errors in C03, C07, C08, C14, C16", "R10-4": "analysis error in C06, C19"}
-    intro = INTRO6.replace("NREF", str(len(rows6))).replace("FIRSTREF", f"{len(rows6) - len(first)} silent everywhere, 2 with a false alarm, 4 that stopped one or more checks with an analysis error")
+             "R10-3": "FALSE ALARM C02.R4 + analysis errors in C03, C07, C08, C14, C16", "R10-4": "analysis error in C06, C19",
+             "R11-2": "FALSE ALARM C05.R4, C17", "R12-1": "analysis errors in 6 checks", "R12-2": "FALSE ALARM C08.R1", "R12-3": "FALSE ALARM C08.R5", "R13-2": "analysis error in C01",
+             "R13-4": "FALSE ALARM C15.R2", "R14-1": "analysis error in C16", "R14-4": "FALSE ALARM C01.R4, C12", "R15-4": "analysis errors in 10 checks", "R16-2": "analysis errors in 6 checks",
+             "R16-4": "FALSE ALARM C10.R1", "R17-2": "analysis errors in 6 checks", "R17-4": "analysis error in C16", "R18-2": "FALSE ALARM C07.R5", "R18-3": "FALSE ALARM C08 + analysis errors",
+             "R19-2": "analysis errors in 7 checks, then FALSE ALARM C19.R1", "R20-1": "FALSE ALARM C19.R4", "R20-3": "analysis errors in 6 checks"}
+    n1 = sum(1 for r in rows6 if r[0] < "R11")
+    n2 = len(rows6) - n1
+    f1 = sum(1 for k in first if k < "R11")
+    f2 = len(first) - f1
+    intro = INTRO6.replace("NREF", str(len(rows6))).replace("FIRSTREF", f"of the {n1} refactorings of the first batch {n1 - f1} were silent everywhere, 2 raised a false alarm and 4 stopped one or more "
+                                                            f"checks with an analysis error; of the {n2} structurally bolder ones of the second batch only {n2 - f2} were silent everywhere, "
+                                                            "9 raised a false alarm and 9 ended in analysis errors")
     t_ = "".join(f"| {rid} | {verdict}{' (first run: ' + first[rid] + ')' if rid in first else ''} | {which} | {what[:140]} |\n" for rid, verdict, which, what in rows6)
     p = V / "DESIGN.md"
     s = p.read_text()
